@@ -603,4 +603,52 @@ class Model:
                 f.add("clash_set_choice")
             if any(n.startswith(t["name"] + "_") and n[len(t["name"]) + 1:].isdigit() for n in tnames):
                 f.add("clash_mangled_suffix")
+        # command line options, physical file layout, spelling of references (DESIGN 9.6)
+        if sch.get("schema_name"):
+            f.add("option_schema_name")
+            if not sch.get("package") or not sch["package"].replace("_", "a").isalnum():
+                f.add("package_not_an_identifier")
+        if sch.get("inject_include"):
+            f.add("option_inject_include")
+        lay = sch.get("layout") or {}
+        if lay.get("included"):
+            f.add("layout_included_fragment")
+        if lay.get("blocks"):
+            f.add("layout_several_types_blocks")
+        if lay.get("tail_block") and lay.get("blocks"):
+            f.add("layout_types_after_messages")
+        if lay.get("plain_message"):
+            f.add("layout_message_without_prefix")
+
+        def all_encodings(els):
+            for e in els:
+                yield e
+                if e["kind"] == "composite":
+                    yield from all_encodings(e["elements"])
+        declared = {t["name"] for t in sch["types"]}
+        refs = []
+        for e in all_encodings(sch["types"]):
+            if e["kind"] == "type" and e.get("value_ref"):
+                f.add("type_level_valueref_constant")
+                refs.append(e["value_ref"].split(".")[0])
+            if e["kind"] == "ref":
+                refs.append(e["type"])
+        for L in self.all_levels():
+            for fd in L.decl["fields"]:
+                if fd["type"] not in PRIMS:
+                    refs.append(fd["type"])
+                if fd.get("value_ref"):
+                    refs.append(fd["value_ref"].split(".")[0])
+            for d in L.decl["data"]:
+                refs.append(d["type"])
+            if L.decl.get("dimension_type"):
+                refs.append(L.decl["dimension_type"])
+        if sch.get("header_type"):
+            refs.append(sch["header_type"])
+        if any(r not in declared for r in refs):
+            f.add("reference_in_other_letter_case")
+        pg = [(g.name, n.name) for L in self.all_levels() for g in L.groups for n in g.groups]
+        for L in self.all_levels():
+            if any((a + "_" + b) in {g.name for g in L.groups} for a, b in pg):
+                f.add("clash_concatenated_group_path")
         return f
